@@ -37,7 +37,8 @@ func (prop) Assumptions() []string {
 	return []string{
 		"'all byte strings' is exhaustive only up to the stated length over the stated alphabet; longer inputs are reached by mutation of real scripts",
 		"a watchdog expiry (no journal progress for 120 s) while a front-end call is running counts as a hang",
-		"the UDF peer sub-monitor and the HTTP write route are exercised by C19 / C02",
+		"udf: all byte strings of length <=3 over {00,01,08,0a,12,7f,80,ff}, truncated/over-long varint sizes (2^31..2^64-1), well-framed but semantically hostile responses (End without Begin, negative sizes, nil oneof payloads, unsolicited responses) and seeded mutations of valid frames are fed to a real udf.Server",
+		"the HTTP write route is exercised by C02 / C20",
 	}
 }
 func (prop) MinNontrivial(tier string) int {
@@ -100,6 +101,14 @@ func (prop) Cases(tier string, seed uint64) []core.Case {
 		cs = append(cs, core.Case{ID: fmt.Sprintf("json-%d", i), Kind: "json", Seed: seed*137 + uint64(i), N: 300})
 	}
 	cs = append(cs, core.Case{ID: "leak", Kind: "leak", Seed: seed})
+	nu := 200
+	if tier == "thorough" {
+		nu = 8000
+	}
+	// ~700 fixed hostile streams + nu seeded mutations, split into blocks
+	for lo := 0; lo < 700+nu; lo += 120 {
+		cs = append(cs, core.Case{ID: fmt.Sprintf("udf-%d", lo), Kind: "udf", Seed: seed, N: nu, Params: map[string]interface{}{"lo": lo, "hi": lo + 120}})
+	}
 	for i := 0; i < nd; i++ {
 		for n := range dataNodes {
 			cs = append(cs, core.Case{ID: fmt.Sprintf("data-%d-%d", i, n), Kind: "data", Seed: seed*139 + uint64(i), Params: map[string]interface{}{"node": n}})
@@ -141,6 +150,8 @@ func (prop) Run(x *core.Ctx) {
 		runLeak(x)
 	case "data":
 		runData(x)
+	case "udf":
+		runUDFPeer(x)
 	}
 }
 
